@@ -467,6 +467,12 @@ func (x *exec) sink(point string, kvs ...any) {
 		return
 	}
 	if point == "fs.remove" || point == "fs.store" || point == "hdm.initialized" || point == "hdm.published" {
+		if strings.HasPrefix(point, "fs.") && len(kvs) >= 2 {
+			// only the files of the observed tree count (the handlers also back up and restore the metrics file)
+			if p, ok := kvs[1].(string); ok && !strings.HasPrefix(p, x.root+string(os.PathSeparator)) {
+				return
+			}
+		}
 		x.gmu.Lock()
 		g := x.gates[goid()]
 		x.gmu.Unlock()
